@@ -196,8 +196,8 @@ CLAIMED = {
          'data; NaN marking of unusable resamples / folds; per-resample noise ceilings (boot_noise_ceiling model of C07); covariance over usable '
          'resamples incl. noise-ceiling rows; repetition correction; dof. Spec oracles: fitter arguments = the fold training set, inner '
          'results stored in order, same-seed reruns identical.',
-         'resamples are observed through harness-side wrappers (not assumed); eval_dual_bootstrap (three covariance stack) is covered '
-         'through _internal_cv and reproducibility only.',
+         'resamples are observed through harness-side wrappers (not assumed); every covariance of the eval_dual_bootstrap three-stack is '
+         'checked separately.',
          'DESIGN.md section 7, C04'),
     'C18': ('Coq proofs over R: double centring inverts to the dissimilarities; any patterns with Gram matrix c*G have squared distances '
          'c*D (so exact-signal data reproduce signal * model RDM); design lists every condition once per partition; noise additive with '
